@@ -3,7 +3,7 @@
 import json, os, shutil, sys
 P, n, caught = sys.argv[1:4]
 note = sys.argv[4] if len(sys.argv) > 4 else "caught by the first version of the check"
-src = f"/tmp/m/{P}/out/{n}"; dst = f"/verif/seeded/{P}-{n}"
+D = os.environ.get("SEED_DIR", P); tag = os.environ.get("SEED_TAG", n); src = f"/tmp/m/{D}/out/{n}"; dst = f"/verif/seeded/{P}-{tag}"
 os.makedirs(dst, exist_ok=True)
 for f in ("patch.diff", "demo.py"):
     shutil.copy(os.path.join(src, f), os.path.join(dst, f))
